@@ -13,6 +13,11 @@ META = {
                 note=CODEC_NOTE + " spec/dispatch.json is pinned from TS 24.501 Tables 9.7.1/9.7.2.",
                 technique="Lean 4 proof over regenerated dispatch tables + exhaustive (EPD,type) correspondence sweep"),
 }
+META["C11"] = dict(
+    text="Kernel-checked theorems about the BitVec 32 definitions regenerated from security/counter.go on this run: invariant count < 2^24 in every state reachable by any operation sequence (induction over op lists), value = overflow*256 + sqn, AddOne = +1 mod 2^24 with carry/wrap, SetSQN/SetOverflow independence, reads pure, all 2^24 states reachable.",
+    note="Trusted: Lean kernel; the integer-expression translator (Go uint semantics -> BitVec); validated each run by running the generated definitions against security.Count on random op sequences, all carry boundaries and increment walks.",
+    technique="Lean 4 proof over a BitVec model regenerated from counter.go (translator) + Go/Lean correspondence")
+
 NOT_APPLICABLE = {
  "C01": "check not built yet in this round (Lean model + correspondence planned, see DESIGN.md section 4); not claimed until it runs",
  "C02": "check not built yet in this round (Lean model + correspondence planned, see DESIGN.md section 4); not claimed until it runs",
